@@ -3,6 +3,7 @@ package harness
 import (
 	"sort"
 	"testing"
+	"time"
 )
 
 // Shrink minimises a failing case: operations (per task), faults, and the
@@ -12,8 +13,10 @@ func Shrink(t *testing.T, c *Case) *Case {
 	want := violKey(c.Viol)
 	p := registry[c.Prop]
 	budget := 250
+	deadline := time.Now().Add(45 * time.Second)
 	try := func(cand *Case) *Case {
-		if budget <= 0 {
+		if budget <= 0 || time.Now().After(deadline) {
+			budget = 0
 			return nil
 		}
 		budget--
